@@ -1,0 +1,84 @@
+//! Verification hooks, compiled in only with `--cfg kepler_5_rrss_verif`.
+//!
+//! Thread-local budgets that make "does not terminate" and "asks for absurd
+//! memory" deterministic verdicts for an external test harness.  All budgets
+//! default to "unlimited", so behaviour is unchanged unless a harness sets one.
+//! On exhaustion the current thread unwinds with a `BudgetExhausted` payload
+//! (via `resume_unwind`, so no panic hook runs and nothing is printed).
+
+use std::cell::Cell;
+
+#[derive(Clone, Copy, Debug, PartialEq, Eq)]
+pub enum BudgetExhausted {
+    Exec,
+    Parse,
+    Alloc(usize),
+}
+
+thread_local! {
+    static EXEC_FUEL: Cell<u64> = Cell::new(u64::MAX);
+    static PARSE_FUEL: Cell<u64> = Cell::new(u64::MAX);
+    static ALLOC_CAP: Cell<usize> = Cell::new(usize::MAX);
+    static EXEC_BURNT: Cell<u64> = Cell::new(0);
+    static PARSE_BURNT: Cell<u64> = Cell::new(0);
+}
+
+pub fn set_exec_fuel(n: u64) {
+    EXEC_FUEL.with(|f| f.set(n));
+    EXEC_BURNT.with(|f| f.set(0));
+}
+
+pub fn set_parse_fuel(n: u64) {
+    PARSE_FUEL.with(|f| f.set(n));
+    PARSE_BURNT.with(|f| f.set(0));
+}
+
+pub fn set_alloc_cap(n: usize) {
+    ALLOC_CAP.with(|f| f.set(n));
+}
+
+/// Back to "unlimited"; the burnt counters keep their values until a budget is set again.
+pub fn reset() {
+    EXEC_FUEL.with(|f| f.set(u64::MAX));
+    PARSE_FUEL.with(|f| f.set(u64::MAX));
+    ALLOC_CAP.with(|f| f.set(usize::MAX));
+}
+
+pub fn exec_burnt() -> u64 {
+    EXEC_BURNT.with(|f| f.get())
+}
+
+pub fn parse_burnt() -> u64 {
+    PARSE_BURNT.with(|f| f.get())
+}
+
+fn exhausted(what: BudgetExhausted) -> ! {
+    std::panic::resume_unwind(Box::new(what))
+}
+
+#[inline]
+pub fn burn_exec() {
+    EXEC_BURNT.with(|f| f.set(f.get().wrapping_add(1)));
+    EXEC_FUEL.with(|f| match f.get() {
+        u64::MAX => {}
+        0 => exhausted(BudgetExhausted::Exec),
+        n => f.set(n - 1),
+    })
+}
+
+#[inline]
+pub fn burn_parse() {
+    PARSE_BURNT.with(|f| f.set(f.get().wrapping_add(1)));
+    PARSE_FUEL.with(|f| match f.get() {
+        u64::MAX => {}
+        0 => exhausted(BudgetExhausted::Parse),
+        n => f.set(n - 1),
+    })
+}
+
+#[inline]
+pub fn check_alloc(n: usize) {
+    if ALLOC_CAP.with(|f| n > f.get()) {
+        exhausted(BudgetExhausted::Alloc(n))
+    }
+}
